@@ -423,7 +423,7 @@ class Gen:
             d = self.enum_decl(n, True, family='F6')
             if rng.random() < 0.3:
                 d['legacy'] = True
-        for n in list(range(1, 9)) + [9, 15, 16, 17, 31, 32, 33, 63, 64]:
+        for n in range(1, 65):      # every storage width
             self.enum_decl(n, False, nvariants=rng.choice([1, 2, 4]), family='F6')
             if n <= 6 and n >= 2:
                 self.enum_decl(n, False, nvariants=(1 << n) - 1, family='F6')
@@ -804,7 +804,10 @@ class Gen:
             elif form == 3:
                 d['default'] = {'form': 'lit', 'value': (1 << W) - 1}
                 d['legacy'] = True
+            d['light'] = True
             self.add(d, 'F5', 'accept', ['all-bases', 'W=%d' % W])
+        if self.tier == 'quick':
+            return
         for W in (32, 64, 128, 24, 100):
             for where in ('low', 'top'):
                 fields = []
@@ -831,8 +834,7 @@ class Gen:
         self.fam_lists(24 if q else 160)
         self.fam_structs(48 if q else 240)
         self.fam_positions()
-        if not q:
-            self.fam_exhaustive()
+        self.fam_exhaustive()
         self.fam_enums()
         self.invalid_enums()
         self.invalid_bitfields(6 if q else 40)
